@@ -84,6 +84,101 @@ namespace c18
     variant(o, "GM", gm, gs, x, y);
   }
 
+  // ---------------------------------------------------------------------------------------------------------------
+  // converted and cloned twins: LAFEM::Transfer::convert / clone, Global::Transfer::convert / clone.
+  // At Q the value type stays Q; convert goes between the index types u64 <-> u32 (the mixed index-type hierarchy).
+  // ---------------------------------------------------------------------------------------------------------------
+  typedef unsigned int Index32;
+  typedef LAFEM::SparseMatrixCSR<Q, Index32> Matrix32;
+  typedef LAFEM::DenseVector<Q, Index32> Vector32;
+  typedef LAFEM::VectorMirror<Q, Index32> Mirror32;
+  typedef LAFEM::Transfer<Matrix32> LocalTransfer32;
+  typedef Global::Gate<Vector32, Mirror32> Gate32;
+  typedef Global::Muxer<Vector32, Mirror32> Muxer32;
+  typedef Global::Vector<Vector32, Mirror32> GlobalVector32;
+  typedef Global::Transfer<LocalTransfer32, Mirror32> GlobalTransfer32;
+
+  template<typename Vec_> static void show_any(std::ostream& o, const Vec_& v)
+  {
+    o << v.size();
+    for(Index i(0); i < v.size(); ++i) o << " " << Q(v(typename Vec_::IndexType(i))).str();
+  }
+
+  // signature of a stored matrix through its getters: rows cols used_elements sum_k (k+1)*val[k]
+  template<typename Mat_> static void show_sig(std::ostream& o, const Mat_& m)
+  {
+    Q s(0);
+    for(Index k(0); k < m.used_elements(); ++k) s = s + Q((long)(k + 1)) * m.val()[k];
+    o << " " << m.rows() << " " << m.columns() << " " << m.used_elements() << " " << s.str();
+  }
+
+  template<typename Transfer_, typename Vec_>
+  static void local_quad(std::ostream& o, const char* tag, const Transfer_& t, const Vec_& x, const Vec_& y)
+  {
+    Vec_ p(y.size(), Q(5)), r(x.size(), Q(5)), tr(x.size(), Q(5)), tp(x.size(), Q(5));
+    t.prol(p, x); t.rest(y, r); t.trunc(y, tr); t.trunc(p, tp);
+    o << " " << tag << " "; show_any(o, p); o << " "; show_any(o, r); o << " "; show_any(o, tr); o << " "; show_any(o, tp);
+    o << " M"; show_sig(o, t.get_mat_prol()); show_sig(o, t.get_mat_rest()); show_sig(o, t.get_mat_trunc());
+  }
+
+  template<typename GT_, typename GV_, typename Gate_, typename Vec_>
+  static void global_quad(std::ostream& o, const char* tag, const GT_& gt, const Gate_& gate_f, const Gate_& gate_c,
+    const Vec_& x, const Vec_& y)
+  {
+    GV_ gx(&gate_c, x.clone()), gy(&gate_f, y.clone());
+    GV_ gp(&gate_f, Vec_(y.size(), Q(5))), gr(&gate_c, Vec_(x.size(), Q(5))), gtr(&gate_c, Vec_(x.size(), Q(5))),
+      gtp(&gate_c, Vec_(x.size(), Q(5)));
+    gt.prol(gp, gx); gt.rest(gy, gr); gt.trunc(gy, gtr); gt.trunc(gp, gtp);
+    o << " " << tag << " "; show_any(o, gp.local()); o << " "; show_any(o, gr.local()); o << " "; show_any(o, gtr.local());
+    o << " "; show_any(o, gtp.local());
+    o << " M"; show_sig(o, gt.get_mat_prol()); show_sig(o, gt.get_mat_rest()); show_sig(o, gt.get_mat_trunc());
+  }
+
+  void transfer_twins_sections(std::ostream& o, const MatrixType& prol, const MatrixType& rest, const MatrixType& trunc,
+    const VectorType& x, const VectorType& y)
+  {
+    const Index nf = prol.rows(), nc = prol.columns();
+    LocalTransferType lt(prol.clone(), rest.clone(), trunc.clone());
+    local_quad(o, "OR", lt, x, y);
+    // convert u64 -> u32 and back
+    Vector32 x32, y32; x32.convert(x); y32.convert(y);
+    LocalTransfer32 lt32; lt32.convert(lt);
+    local_quad(o, "CV", lt32, x32, y32);
+    LocalTransferType ltb; ltb.convert(lt32);
+    local_quad(o, "CB", ltb, x, y);
+    // clones
+    { LocalTransferType c = lt.clone(LAFEM::CloneMode::Shallow); local_quad(o, "CS", c, x, y); }
+    { LocalTransferType c = lt.clone(LAFEM::CloneMode::Weak); local_quad(o, "CW", c, x, y); }
+    { LocalTransferType c = lt.clone(LAFEM::CloneMode::Deep); local_quad(o, "CD", c, x, y); }
+    { LocalTransferType c = lt.clone(); local_quad(o, "CC", c, x, y); }
+    // Global::Transfer: un-muxed and muxed, converted to the u32 types (with a muxer of the target type) and cloned
+    GlobalSetup gs(nf, nc);
+    Dist::Comm comm(Dist::Comm::world());
+    Gate32 gate32_f(comm), gate32_c(comm);
+    gate32_f.compile(Vector32(Index32(nf), Q(0)));
+    gate32_c.compile(Vector32(Index32(nc), Q(0)));
+    Muxer32 mux32;
+    {
+      Mirror32 m1(nc, nc), m2(nc, nc);
+      for(Index i(0); i < nc; ++i) { m1.indices()[i] = Index32(i); m2.indices()[i] = Index32(i); }
+      mux32.set_parent(&comm, 0, std::move(m1));
+      mux32.push_child(std::move(m2));
+      mux32.compile(Vector32(Index32(nc), Q(0)));
+    }
+    GlobalTransferType gu(nullptr, prol.clone(), rest.clone(), trunc.clone());
+    GlobalTransferType gm(&gs.mux_one, prol.clone(), rest.clone(), trunc.clone());
+    { GlobalTransfer32 g32; g32.convert(nullptr, gu);
+      global_quad<GlobalTransfer32, GlobalVector32>(o, "GUV", g32, gate32_f, gate32_c, x32, y32); }
+    { GlobalTransfer32 g32; g32.convert(&mux32, gm);
+      global_quad<GlobalTransfer32, GlobalVector32>(o, "GMV", g32, gate32_f, gate32_c, x32, y32); }
+    { GlobalTransferType c = gu.clone(LAFEM::CloneMode::Deep);
+      global_quad<GlobalTransferType, GlobalVectorType>(o, "GUC", c, gs.gate_f, gs.gate_c, x, y); }
+    { GlobalTransferType c = gm.clone(LAFEM::CloneMode::Weak);
+      global_quad<GlobalTransferType, GlobalVectorType>(o, "GMW", c, gs.gate_f, gs.gate_c, x, y); }
+    { GlobalTransferType c = gm.clone(LAFEM::CloneMode::Deep);
+      global_quad<GlobalTransferType, GlobalVectorType>(o, "GMD", c, gs.gate_f, gs.gate_c, x, y); }
+  }
+
   // the halves that only a ghost process may call (and prol_cancel, which nobody may call): they must abort
   void global_transfer_forbidden(std::ostream& o, int which, const MatrixType& prol, const MatrixType& rest,
     const MatrixType& trunc, const VectorType& x, const VectorType& y)
